@@ -349,6 +349,6 @@ pub fn props() -> Vec<Box<dyn DynProp>> {
 pub fn run(ctx: &mut Ctx) {
     let q = ctx.quick();
     ctx.run(&Rejections, &Params::new(if q { 20_000 } else { 500_000 }, 20, 200));
-    ctx.run(&Width4, &Params::new(if q { 150 } else { 5000 }, 300, 3000).shrink(80));
-    ctx.run(&Values, &Params::new(if q { 150 } else { 5000 }, 300, 3000).shrink(60));
+    ctx.run(&Width4, &Params::new(if q { 600 } else { 20_000 }, 300, 3000).shrink(80));
+    ctx.run(&Values, &Params::new(if q { 600 } else { 20_000 }, 300, 3000).shrink(60));
 }
